@@ -45,6 +45,7 @@ type PathResult struct {
 	Reached    map[string]int    `json:"reached,omitempty"`   // reach labels
 	Covered    map[string]bool   `json:"covered,omitempty"`   // cover labels satisfied on this path
 	CoverSeen  map[string]bool   `json:"cover_seen,omitempty"`
+	CoverWit   map[string][]InputRec `json:"cover_witness,omitempty"`
 	Violations []Violation       `json:"violations,omitempty"`
 	Sat        int               `json:"sat"`
 	Unsat      int               `json:"unsat"`
@@ -420,6 +421,12 @@ func (p *pathState) assume(cond value) {
 }
 
 func (p *pathState) cover(cond value, label string) {
+	if !p.res.CoverSeen[label] {
+		if p.res.CoverWit == nil {
+			p.res.CoverWit = map[string][]InputRec{}
+		}
+		p.res.CoverWit[label] = append([]InputRec(nil), p.inputs...)
+	}
 	p.res.CoverSeen[label] = true
 	switch c := cond.(type) {
 	case bool:
